@@ -13,7 +13,7 @@ For one property it
   5. decides: exit 0 / KNOWN-FINDING lines / VIOLATION property=<id> replay=<file> [no-failing-input-found],
   6. rewrites evidence/<id>.json.
 """
-import argparse, fcntl, hashlib, importlib, json, os, re, shutil, subprocess, sys, time
+import argparse, atexit, fcntl, hashlib, importlib, json, os, re, shutil, subprocess, sys, time
 from pathlib import Path
 
 VERIF = Path(__file__).resolve().parent.parent
@@ -199,32 +199,76 @@ def load_known():
     return json.loads(f.read_text()).get("findings", [])
 
 
+class ImplCrash(Exception):
+    """the harness process (that is: the library under test) died with a signal on this record"""
+    def __init__(self, record, rc):
+        super().__init__(f"implementation died with signal/exit {rc}")
+        self.record, self.rc = record, rc
+
+
 class Ctx:
     """what a property module gets to work with"""
     def __init__(self, prop, tier, seed):
         self.prop, self.tier, self.seed = prop, tier, seed
         self.low = prop.lower()
-        self.work = WORK / self.low
+        # one scratch directory per run: two concurrent runs of the same property must not share record files
+        self.work = WORK / self.low / f"run{os.getpid()}"
         self.work.mkdir(parents=True, exist_ok=True)
+        atexit.register(shutil.rmtree, str(self.work), True)
         self.notes = []
         self.t0 = time.time()
 
     def harness_gen(self, binpath, tier, seed, tag=""):
         out = self.work / f"records{tag}.txt"
         rc, log = run([str(binpath), "gen", tier, str(seed), str(out)], timeout=3000)
+        if rc < 0 or rc in (132, 134, 135, 136, 139):
+            # the implementation died with a signal (not a Rust panic: those are caught per record): find the record
+            lst = self.work / f"list{tag}.txt"
+            rc2, _ = run([str(binpath), "list", tier, str(seed), str(lst)], timeout=3000)
+            if rc2 == 0:
+                rec = self.find_crash(binpath, lst.read_text().splitlines(), tag)
+                if rec is not None:
+                    raise ImplCrash(rec, rc)
         if rc != 0:
             raise RuntimeError(f"harness gen failed ({rc}):\n{log[-3000:]}")
         return out
 
+    def find_crash(self, binpath, lines, tag):
+        """smallest prefix of the record list on which the harness process dies with a signal -> its last record"""
+        inp, outp = self.work / f"crash_in{tag}.txt", self.work / f"crash_out{tag}.txt"
+        def dies(k):
+            inp.write_text("\n".join(lines[:k]) + "\n")
+            rc, _ = run([str(binpath), "exec", str(inp), str(outp)], timeout=3000)
+            return rc < 0 or rc in (132, 134, 135, 136, 139)
+        if not lines or not dies(len(lines)):
+            return None
+        lo, hi = 0, len(lines)          # dies(hi) holds, dies(lo) does not
+        while hi - lo > 1:
+            mid = (lo + hi) // 2
+            if dies(mid):
+                hi = mid
+            else:
+                lo = mid
+        rec = lines[hi - 1]
+        inp.write_text(rec + "\n")
+        rc, _ = run([str(binpath), "exec", str(inp), str(outp)], timeout=3000)
+        return rec if (rc < 0 or rc in (132, 134, 135, 136, 139)) else None
+
     def harness_exec(self, binpath, inp, tag="_replay"):
         out = self.work / f"records{tag}.txt"
         rc, log = run([str(binpath), "exec", str(inp), str(out)], timeout=3000)
+        if rc < 0 or rc in (132, 134, 135, 136, 139):
+            rec = self.find_crash(binpath, Path(inp).read_text().splitlines(), tag)
+            if rec is not None:
+                raise ImplCrash(rec, rc)
         if rc != 0:
             raise RuntimeError(f"harness exec failed ({rc}):\n{log[-3000:]}")
         return out
 
     def drive(self, drv, records):
-        rc, out = run([str(drv), str(records)], timeout=3000)
+        # the extracted model recurses structurally on lists (not tail-recursive): large ring degrees of the thorough
+        # tier need more than the default 8 MB of native stack
+        rc, out = run(["bash", "-c", 'ulimit -s unlimited 2>/dev/null || ulimit -s 1000000; exec "$0" "$1"', str(drv), str(records)], timeout=3000)
         if rc != 0:
             raise RuntimeError("driver failed:\n" + out[-3000:])
         return parse_verdicts(out)
@@ -311,6 +355,7 @@ def generic_check(prop, tier, seed, cfg, replay=None):
     samples, dist = [], {}
     diffs, ofails = [], []
     corr_error = None
+    crash = None
     try:
         drv = build_driver(prop)
         builds = getattr(cfg, "PROFILES", ["release"])
@@ -347,6 +392,9 @@ def generic_check(prop, tier, seed, cfg, replay=None):
             if len(samples) < 4 and lines:
                 samples += [l[:400] for l in lines[:: max(1, len(lines) // 3)][:3]]
         stats["distinct"] = len(set(l.rsplit("#", 1)[0] for l in lines)) if lines else 0
+    except ImplCrash as e:
+        crash = e
+        corr_error = str(e)
     except Exception as e:  # harness or driver could not run at all
         corr_error = str(e)
 
@@ -378,6 +426,14 @@ def generic_check(prop, tier, seed, cfg, replay=None):
                                           "records": [f["record"].rsplit("#", 1)[0] + "#"], "observed": f["record"], "profile": f["profile"],
                                           "replay_cmd": f"python3 tools/check.py {prop} --replay <this file>",
                                           "other_failures": len(new_fail) - 1})
+        print(f"VIOLATION property={prop} replay={rp}")
+        exit_code = 1
+    elif crash is not None:
+        rp = write_replay(prop, "crash", {"property": prop, "kind": "implementation-crash",
+                                         "what": f"the library dies with a signal (harness exit status {crash.rc}) while executing this record: no result is produced, "
+                                                 "memory safety / totality of an admissible call is violated",
+                                         "records": [crash.record.rsplit("#", 1)[0] + "#"],
+                                         "replay_cmd": f"python3 tools/check.py {prop} --replay <this file>"})
         print(f"VIOLATION property={prop} replay={rp}")
         exit_code = 1
     elif corr_error or diffs or proof_broken:
